@@ -277,22 +277,24 @@ pub fn tracer_main(args: &[String]) -> i32 {
     let secret = SECRETS[si];
     let (name, wire, sig, cfg) = requests(secret)[ri].clone();
     let prov = ProvSpec::Derive(vec![(e2e::ACCESS_KEY.to_string(), secret.to_string())]);
-    // warm-up in this process, before any fork: regexes, lazy statics, allocator, hash seeds
-    for k in [64usize, 0, 63, 100] {
+    // warm-up in this process, before any fork: regexes, lazy statics, allocator, hash seeds. The state every traced
+    // child starts from: the genuine request has been accepted once, and after that a run of 14 wrong signatures of
+    // various shapes has been refused for the same access key (whatever the library remembers of either is in place)
+    {
+        let case = Case { wire: wire.clone(), cfg: cfg.clone(), prov: prov.clone() };
+        let mut p = case.prov.to_provider();
+        if !sut::validate(&case.wire, &case.cfg, &mut p).is_ok() {
+            println!("MACHINERY-ERROR: the correctly signed request is not accepted");
+            return 2;
+        }
+    }
+    for k in [64usize, 0, 63, 100, 1, 2, 17, 31, 32, 48, 64, 127, 5, 64] {
         let w = put_signature(&wire, &sig, &variant(&sig, k));
         let case = Case { wire: w, cfg: cfg.clone(), prov: prov.clone() };
         let mut p = case.prov.to_provider();
         let r = sut::validate(&case.wire, &case.cfg, &mut p);
         if r.is_ok() {
             println!("MACHINERY-ERROR: a wrong signature was accepted during warm-up");
-            return 2;
-        }
-    }
-    {
-        let case = Case { wire: wire.clone(), cfg: cfg.clone(), prov: prov.clone() };
-        let mut p = case.prov.to_provider();
-        if !sut::validate(&case.wire, &case.cfg, &mut p).is_ok() {
-            println!("MACHINERY-ERROR: the correctly signed request is not accepted");
             return 2;
         }
     }
@@ -533,7 +535,7 @@ pub fn run(ctx: &Ctx) -> Report {
     Report {
         stats: st,
         rule: format!(
-            "for each of {} (request, key) groups ({}): wrong signatures of the correct length — only position p wrong for every p in 0..63{} — substituted within the character's class (digit->digit, letter->letter), in lower case and (every 8th position in quick, all in thorough) with the letters in upper case, each family compared with its own all-wrong reference; the lower-case family is traced again with a logger installed at Debug level that formats every record; three further request shapes carry the presented signature twice (a repeated X-Amz-Signature parameter, a repeated Signature= field, a stray X-Amz-Signature query parameter next to header authentication; every 8th position in quick, all positions and both secrets in thorough); the refusal is also traced on an authenticator assembled by hand through the unstable builder with validate_signature called directly; each is validated in a forked, warmed-up child of a single-threaded tracer (ship-profile build, logger off unless stated, byte-wise early-exit memcmp/bcmp linked in) and single-stepped under ptrace from just before to just after sigv4_validate_request; every trace must have the same length and the same RIP-sequence hash as the group's reference trace (all 64 characters wrong), which is itself traced twice to prove the apparatus deterministic. states = distinct (group, trace hash); transitions = machine instructions stepped",
+            "for each of {} (request, key) groups ({}): wrong signatures of the correct length — only position p wrong for every p in 0..63{} — substituted within the character's class (digit->digit, letter->letter), in lower case and (every 8th position in quick, all in thorough) with the letters in upper case, each family compared with its own all-wrong reference; the lower-case family is traced again with a logger installed at Debug level that formats every record; three further request shapes carry the presented signature twice (a repeated X-Amz-Signature parameter, a repeated Signature= field, a stray X-Amz-Signature query parameter next to header authentication; every 8th position in quick, all positions and both secrets in thorough); the refusal is also traced on an authenticator assembled by hand through the unstable builder with validate_signature called directly; each is validated in a forked child of a warmed-up tracer (the genuine request accepted once, then 14 wrong signatures refused for the same access key) of a single-threaded tracer (ship-profile build, logger off unless stated, byte-wise early-exit memcmp/bcmp linked in) and single-stepped under ptrace from just before to just after sigv4_validate_request; every trace must have the same length and the same RIP-sequence hash as the group's reference trace (all 64 characters wrong), which is itself traced twice to prove the apparatus deterministic. states = distinct (group, trace hash); transitions = machine instructions stepped",
             groups.len(),
             if thorough { "GET vanilla, POST body, query carrier x 2 secrets" } else { "GET vanilla, first secret" },
             if thorough { ", and positions p..63 all wrong for every p" } else { "" }
